@@ -5,6 +5,7 @@ import (
 	"flag"
 	"fmt"
 	"math/rand"
+	"runtime/debug"
 	"sort"
 	"strings"
 	"sync"
@@ -473,3 +474,94 @@ func replaySharing(args []string) (any, error) {
 	sum.sample(map[string]any{"result_alone": want["abc 12"]})
 	return sum, err
 }
+
+// coldScript builds script i of the cold-runs stage: every builtin that takes a literal pattern, format, zone or type gets a literal
+// no script of this process has used before (whatever is compiled, parsed or looked up on first use then happens in several
+// runs at once), applied to subjects that make it do its work.
+func coldScript(i int) string {
+	return fmt.Sprintf(`add_pattern("p%[1]d", "[a-z]{%[2]d,}")
+ok = grok(_, "%%{p%[1]d:w%[1]d} %%{NUMBER:n%[1]d:int}")
+replace(q, "t%[1]d+[a-f]*", "X%[1]d")
+replace(u, "(a)%%(2)(\\d{%[2]d})?", "$1-%[1]d")
+strfmt(sf, "%[1]d:%%v-%%s-%%0%[2]dd", ok, w%[1]d, n%[1]d)
+x = load_json("{\"k%[1]d\": [%[1]d, {\"z\": %[2]d.5}]}")
+add_key(xk, x["k%[1]d"][0])
+datetime(dt, "ms", "RFC3339")
+default_time(ts, "+%[3]d")
+trim(q, "s%[1]dX")
+cast(n%[1]d, "str")
+url_decode(u)
+`, i, 1+i%5, 1+i%11)
+}
+
+func coldRunOnce(sc *plruntime.Script, i int) string {
+	pt := input.GetPoint()
+	input.InitPt(pt, "m", map[string]string{"t": "v"}, map[string]any{"message": fmt.Sprintf("abc %d", i), "q": fmt.Sprintf("select t%dtt%dabc", i, i),
+		"u": "a%20b", "ts": "2021-03-04 05:06:07", "dt": int64(1614834367123)}, fixedTime)
+	err := sc.Run(pt, nil)
+	s := fmt.Sprintf("err=%v fields=%s tags=%s time=%d", errStr(err), showVal(map[string]any(pt.Fields)), fmt.Sprint(pt.Tags), pt.Time.UnixNano())
+	input.PutPoint(pt)
+	return s
+}
+
+// cold-runs -n N -g G: N freshly written scripts are loaded (G at a time), then run for the first time G at a time, each on a
+// point of its own; afterwards every script is run once more alone and must give what its first run gave.  A crash of the
+// process (the Go runtime aborts on concurrent map access) is reported by the caller as a violation.
+func coldRuns(args []string) (any, error) {
+	fs := flag.NewFlagSet("cold-runs", flag.ContinueOnError)
+	n := fs.Int("n", 200, "")
+	g := fs.Int("g", 16, "")
+	if err := fs.Parse(args); err != nil {
+		return nil, err
+	}
+	sum := &Summary{Extra: map[string]any{}}
+	scripts := make([]*plruntime.Script, *n)
+	first := make([]string, *n)
+	for at := 0; at < *n; at += *g {
+		end := at + *g
+		if end > *n {
+			end = *n
+		}
+		var wg sync.WaitGroup
+		start := make(chan struct{})
+		for i := at; i < end; i++ {
+			wg.Add(1)
+			go func(i int) {
+				defer wg.Done()
+				defer func() {
+					if r := recover(); r != nil {
+						first[i] = fmt.Sprintf("panic: %v\n%s", r, debug.Stack())
+					}
+				}()
+				<-start
+				ok, errs := engine.ParseScript(map[string]string{"cold.p": coldScript(i)}, funcs.FuncsMap, funcs.FuncsCheckMap)
+				if len(errs) > 0 {
+					first[i] = fmt.Sprintf("load error: %v", errs)
+					return
+				}
+				scripts[i] = ok["cold.p"]
+				first[i] = coldRunOnce(scripts[i], i)
+			}(i)
+		}
+		close(start)
+		wg.Wait()
+	}
+	for i := 0; i < *n; i++ {
+		sum.Evaluations++
+		sum.Distinct++
+		switch {
+		case strings.HasPrefix(first[i], "panic:"):
+			sum.miss(fmt.Sprintf("cold-run-panic:%d", i), map[string]any{"script": coldScript(i), "panic": first[i]})
+		case scripts[i] == nil:
+			sum.miss(fmt.Sprintf("cold-run-load:%d", i), map[string]any{"script": coldScript(i), "problem": first[i]})
+		default:
+			if alone := coldRunOnce(scripts[i], i); alone != first[i] {
+				sum.miss(fmt.Sprintf("cold-run-result:%d", i), map[string]any{"script": coldScript(i), "alone": alone, "among_concurrent_first_runs": first[i]})
+			}
+		}
+	}
+	sum.sample(map[string]any{"scripts": *n, "at_a_time": *g, "script_7": coldScript(7), "result_7": first[7%*n]})
+	return sum, nil
+}
+
+func init() { register("cold-runs", coldRuns) }
